@@ -735,25 +735,38 @@ class Vector():
 
 			# Object dtype accepts any type - skip validation
 			if self._dtype is not None and self._dtype.kind is not object:
-				incompatible = None
+				# Work out the dtype the column needs for ALL new values before
+				# touching anything, so that a rejected assignment changes nothing.
+				target = self._dtype
 				for val in new_values:
 					try:
-						validate_scalar(val, self._dtype)
+						validate_scalar(val, target)
+						continue
 					except TypeError:
-						incompatible = val
-						break
-
-				if incompatible is not None:
-					required_dtype = infer_dtype([incompatible])
-					try:
-						self._promote(required_dtype.kind)
-						underlying = self._underlying
-					except SerifTypeError:
+						pass
+					if val is None:
+						# None is accepted and makes the column nullable
+						target = target.with_nullable(True)
+						continue
+					required_kind = infer_dtype([val]).kind
+					promotable = (
+						(target.kind is int and required_kind in (float, complex))
+						or (target.kind is float and required_kind is complex)
+						or (target.kind is date and required_kind is datetime)
+					)
+					if not promotable:
 						raise SerifTypeError(
-							f"Cannot set {required_dtype.kind.__name__} in "
-							f"{self._dtype.kind.__name__} vector. "
+							f"Cannot set {required_kind.__name__} in "
+							f"{target.kind.__name__} vector. "
 							f"Promotion not supported."
 						)
+					target = DataType(required_kind, target.nullable)
+
+				if target.kind is not self._dtype.kind:
+					self._promote(target.kind)
+					underlying = self._underlying
+				if target.nullable and not self._dtype.nullable:
+					self._dtype = self._dtype.with_nullable(True)
 		# =====================================================================
 		# MUTATE — copy-on-write + fingerprint updates
 		# =====================================================================
